@@ -286,12 +286,10 @@ func (c *Ctx) errPropagated(call ssa.CallInstruction) (bool, string) {
 			}
 		}
 		if hasRet {
-			q := PathQuery{From: call.(ssa.Instruction), Cut: func(i ssa.Instruction) bool { return returnsErr(e, i) }, Goal: func(i ssa.Instruction) bool {
-				if ifi, ok := i.(*ssa.If); ok && testsNil(ifi.Cond, e) {
-					return true // a test comes first: judged below
-				}
-				return IsReturn(i)
-			}}
+			q := PathQuery{From: call.(ssa.Instruction), Goal: func(i ssa.Instruction) bool {
+				ifi, ok := i.(*ssa.If)
+				return ok && testsNil(ifi.Cond, e) // a test comes first: judged below
+			}, GoalP: notReturning(e)}
 			if q.Find() == nil {
 				return true, "returned (merged with the other outcomes)"
 			}
@@ -334,7 +332,7 @@ func (c *Ctx) errPropagated(call ssa.CallInstruction) (bool, string) {
 		// the error must still be the one that is tested when it is non-nil: a later
 		// call that overwrites the variable before the test (a loop that goes on
 		// after a failure) loses it
-		qq := PathQuery{From: call.(ssa.Instruction), NonNil: map[ssa.Value]bool{e: true}, Cut: func(i ssa.Instruction) bool { return returnsErr(e, i) }, Goal: IsReturn}
+		qq := PathQuery{From: call.(ssa.Instruction), NonNil: map[ssa.Value]bool{e: true}, GoalP: notReturning(e)}
 		if p := qq.Find(); p != nil {
 			return false, "a path from the call to the return at " + c.P.InstrPos(p[len(p)-1]) + " does not hand a non-nil error back (it is overwritten or skipped before it is tested)"
 		}
@@ -600,6 +598,44 @@ func carriesErr(e, v ssa.Value, d int) bool {
 }
 
 // returnsErr: ret hands e back in one of its results.
+// notReturning is the goal "a return that does not hand e back on the path
+// walked": the returned values are resolved through the phis the path selects
+// (a variable that a later call overwrites no longer carries e at the return).
+func notReturning(e ssa.Value) func(ssa.Instruction, PathView) bool {
+	return func(i ssa.Instruction, pv PathView) bool {
+		ret, ok := i.(*ssa.Return)
+		if !ok {
+			return false
+		}
+		for _, rv := range ret.Results {
+			if pv.Precise() {
+				if carriesErr(e, pv.Resolve(rv), 0) {
+					return false
+				}
+				continue
+			}
+			// no path to resolve on: the return possibly does not hand e back if some
+			// operand of the merged result does not
+			if !mayNotCarry(e, rv, 0) {
+				return false
+			}
+		}
+		return true
+	}
+}
+
+func mayNotCarry(e, rv ssa.Value, d int) bool {
+	if phi, ok := rv.(*ssa.Phi); ok && d < 4 {
+		for _, x := range phi.Edges {
+			if mayNotCarry(e, x, d+1) {
+				return true
+			}
+		}
+		return false
+	}
+	return !carriesErr(e, rv, 0)
+}
+
 func returnsErr(e ssa.Value, i ssa.Instruction) bool {
 	ret, ok := i.(*ssa.Return)
 	if !ok {
